@@ -836,6 +836,19 @@ func memoAccesses(r *Run) []*memoAcc {
 			case *ssa.Lookup:
 				if _, isMap := x.X.Type().Underlying().(*types.Map); isMap && x.CommaOk {
 					accs = append(accs, &memoAcc{fn: fn, at: x, m: x.X, k: x.Index, got: x, kind: "map"})
+				} else if isMap && !x.CommaOk {
+					// `if v := m[k]; v != nil { return v }`: a look-up whose result is compared
+					// with nil asks "is it there?" as the comma-ok form does
+					if refs := x.Referrers(); refs != nil {
+						for _, u := range *refs {
+							if b, ok := u.(*ssa.BinOp); ok && (b.Op == token.EQL || b.Op == token.NEQ) {
+								if c, ok := b.Y.(*ssa.Const); ok && c.IsNil() {
+									accs = append(accs, &memoAcc{fn: fn, at: x, m: x.X, k: x.Index, got: x, kind: "map"})
+									break
+								}
+							}
+						}
+					}
 				}
 			case ssa.CallInstruction:
 				cn := calleeName(x.Common())
